@@ -612,6 +612,7 @@ def step_observe(h, tok, p):
 # ----------------------------------------------------------------------------- the library-only oracle, run after every step
 
 _EXPLOIT_ROT = [0]
+_EXPLOIT_ROT_REFS = [0]
 
 
 def exploit(h, kind, shared):
@@ -624,6 +625,7 @@ def exploit(h, kind, shared):
             others = [i for i in group if i != o]
             before = {i: O.snapshot(P[i]) for i in others}
             call = None
+            extra_inp = {}
             try:
                 if which == 'bits' and tags[o] == 's' and len(O._raw(P[o], 'bits')):
                     P[o].skip_bits(1)
@@ -650,8 +652,37 @@ def exploit(h, kind, shared):
                         if any(O.snapshot(P[i]) != before[i] for i in others):
                             break
                 elif which == 'refs' and tags[o] == 'b' and len(O._raw(P[o], 'refs')) < 4 and some_cell is not None:
-                    P[o].store_ref(some_cell)
-                    call = f'pool[{o}] (Builder) .store_ref(pool[{h.pool.find(some_cell)}])'
+                    # every kind of REFERENCE write, in a fixed order, until one shows through (round 10: a copy-on-write scheme may
+                    # replace the list in store_ref and still extend it in place in store_cell / store_slice / store_builder)
+                    b = P[o]
+                    Cell_, Slice_, Builder_, _, _ = _lib()
+                    ci = h.pool.find(some_cell)
+                    carrier = Builder_().store_ref(some_cell).end_cell()          # a cell with no bits and one reference (not a pool object)
+                    writes = [(f'store_ref(pool[{ci}])', lambda: b.store_ref(some_cell)),
+                              (f'store_cell(<cell with no bits and the reference pool[{ci}]>)', lambda: b.store_cell(carrier)),
+                              (f'store_slice(<slice of a cell with no bits and the reference pool[{ci}]>)', lambda: b.store_slice(carrier.begin_parse())),
+                              (f'store_builder(<builder with no bits and the reference pool[{ci}]>)', lambda: b.store_builder(Builder_().store_ref(some_cell))),
+                              (f'store_maybe_ref(pool[{ci}])', lambda: b.store_maybe_ref(some_cell)),
+                              ("store_snake_bytes(b'q' * 200)", lambda: b.store_snake_bytes(b'q' * 200))]
+                    # the FIRST write rotates from history to history (as for the bit writes: a scheme that replaces the list in one store
+                    # method unshares there; the first write after the sharing began is the one that tells); a replay forces the recorded one
+                    forced = getattr(h, 'exploit_first', None)
+                    if forced is None:
+                        _EXPLOIT_ROT_REFS[0] += 1
+                        k0 = _EXPLOIT_ROT_REFS[0] % len(writes)
+                    else:
+                        k0 = int(forced) % len(writes)
+                    extra_inp['exploit_first'] = k0
+                    for nm, f in writes[k0:] + writes[:k0]:
+                        if len(O._raw(b, 'refs')) >= 4:
+                            break
+                        try:
+                            f()
+                        except Exception:
+                            continue
+                        call = (call + ' ; ' if call else f'pool[{o}] (Builder) ') + '.' + nm
+                        if any(O.snapshot(P[i]) != before[i] for i in others):
+                            break
             except Exception:
                 call = None
             if call is None:
@@ -662,7 +693,7 @@ def exploit(h, kind, shared):
                     ctx.count('alias-exploited')
                     ctx.fail(f'alias-exploit:{kind}',
                              f'after this history pool[{i}] ({tags[i]}) and pool[{o}] ({tags[o]}) share one {which} container: {call} changes pool[{i}]',
-                             h.inp({'exploit': call}), now, before[i])
+                             h.inp(dict({'exploit': call}, **extra_inp)), now, before[i])
                     h.reported = True
                     raise Stop()
     ctx.corr_broken(f'the library shares a container between a Slice/Builder and another object {shared[:2]} (no library call exploits it here); '
@@ -1093,6 +1124,7 @@ def history(ctx, rng):
 
 def rerun(ctx, inp):
     h = Hist(ctx)
+    h.exploit_first = inp.get('exploit_first')
     try:
         for tok in inp.get('init', []):
             do_step(h, tok, True)
@@ -1898,6 +1930,14 @@ def vmslice_case(ctx, shape, nb, nrefs, windows, seed):
 
 def probe_vmslice_windows(ctx):
     rng = ctx.rng
+    state = rng.getstate()          # every choice below derives from ctx.rng; the streams that follow keep their own draws
+    try:
+        _probe_vmslice_windows(ctx, rng)
+    finally:
+        rng.setstate(state)
+
+
+def _probe_vmslice_windows(ctx, rng):
     n = 0
     for nrefs in range(0, 5):
         for st_ref in range(0, nrefs + 1):
@@ -1940,3 +1980,7 @@ def run(ctx):
         if ctx.failures:
             return
     _run_before_vmw(ctx)
+SPEC['manifest']['text'] += (' FOREIGN SLICE WINDOWS (library-only probe, every run): VmStack encodings written by the harness holding vm_stk_slice / vmc_std code / '
+                             'tuple entries for every reference window 0 <= st_ref <= end_ref <= refs of cells with 0..4 references and several bit windows '
+                             '(the library\'s own serialiser only writes full windows of re-packed cells); bag parsed, stack parsed twice, results checked '
+                             'against the window and used up, every cell of the bag observed before and after (hash, bits, reference hashes and identities, to_boc).')
